@@ -326,6 +326,39 @@ func gen(repo string) (map[string]string, error) {
 	fact("cmdAddDelegatesResolvedNetworks", effectContains(srv.Fset, ca, "return cniutil.CmdAdd($0.CmdArgs, recv.resolveNetworks($0, $1)#0)"),
 		"Galaxy.cmdAdd = resolveNetworks, then cniutil.CmdAdd(req.CmdArgs, networkInfos)", "cmdAdd normal form changed")
 
+	// getPod: the pod of a CNI request comes from the API server (client…Pods(ns).Get), not from a lister / informer
+	// cache which may still hold an earlier incarnation of the same name
+	gp, err := srv.Fn("Galaxy", "getPod")
+	if err != nil {
+		return nil, err
+	}
+	recvName := ""
+	if gp.Recv != nil && len(gp.Recv.List) == 1 && len(gp.Recv.List[0].Names) == 1 {
+		recvName = gp.Recv.List[0].Names[0].Name
+	}
+	onlyClient, apiGet, other := true, false, ""
+	ast.Inspect(gp.Body, func(x ast.Node) bool {
+		switch n := x.(type) {
+		case *ast.SelectorExpr:
+			if id, ok := n.X.(*ast.Ident); ok && id.Name == recvName && n.Sel.Name != "client" {
+				onlyClient, other = false, recvName+"."+n.Sel.Name
+			}
+			low := strings.ToLower(n.Sel.Name)
+			if strings.Contains(low, "lister") || strings.Contains(low, "informer") || strings.Contains(low, "indexer") || strings.Contains(low, "cache") {
+				onlyClient, other = false, srv.Src(n)
+			}
+		case *ast.CallExpr:
+			c := strings.Join(strings.Fields(srv.Src(n.Fun)), "")
+			if strings.HasPrefix(c, recvName+".client.CoreV1().Pods(") && strings.HasSuffix(c, ").Get") {
+				apiGet = true
+			}
+		}
+		return true
+	})
+	fact("getPodReadsApiserver", recvName != "" && onlyClient && apiGet,
+		"Galaxy.getPod obtains the pod through g.client.CoreV1().Pods(ns).Get and uses nothing else of the daemon (no lister / informer / cache)",
+		"getPod also uses "+other)
+
 	// ---------------------------------------------------------------- cni/ipam/ipam.go
 	ipm, err := fg.ParseFile(repo, "cni/ipam/ipam.go")
 	if err != nil {
